@@ -543,6 +543,18 @@ func rule165(r *core.Run) {
 						split2 = true
 					}
 				}
+			case "strings.Index", "strings.IndexByte":
+				// split at the FIRST separator by slicing around its index
+				sep := cut == "/"
+				if k, ok := core.ConstInt(args[1]); ok && k == '/' {
+					sep = true
+				}
+				if sep {
+					is := r.P.SliceOf(args[0], core.SliceOpts{Depth: -1})
+					if is.HasCallTo("strings.Trim") || (is.HasCallTo("strings.TrimLeft") && is.HasCallTo("strings.TrimRight")) {
+						split2 = true
+					}
+				}
 			}
 		}
 		okStrip := both || (left && right)
